@@ -25,6 +25,16 @@ def enum_index(db, enum, name):
     return vals.index(name)
 
 
+class CrossAxis(AnalysisBroken):
+    """A comparison between quantities of two different ordering groups (an x with a y bound): no table over orderings *within* each
+    axis can be uniform for it - and in the tables that use two groups (point against rectangle) it is a bug by itself: the
+    classification of a point by x must not depend on how its x compares with a y bound."""
+
+    def __init__(self, a, b, line):
+        AnalysisBroken.__init__(self, "comparison between two symbolic inputs %s and %s (line %s) is outside the partition" % (a, b, line))
+        self.a, self.b, self.line = a, b, line
+
+
 def check_uniform(log, bounds):
     """Every logged comparison must be uniform on every cell of the enumerated partition:
        * symbol vs. constant: the critical points of the comparison (see SymVal.crit) lie strictly inside the contiguous
@@ -40,6 +50,8 @@ def check_uniform(log, bounds):
                 continue
             if ga == "tri" and gb == "tri":
                 continue
+            if ga is not None and gb is not None and ga.startswith("order") and gb.startswith("order"):
+                raise CrossAxis(syms[0][1], syms[1][1], line)
             raise AnalysisBroken("comparison between two symbolic inputs %s and %s (line %s) is outside the partition"
                                  % (syms[0][1], syms[1][1], line))
         if not syms:
@@ -1441,7 +1453,14 @@ def location_table(db, chk, cfg, rule="T.location"):
                 ret = bool(it.run_function(f))
             except Unsupported as e:
                 raise AnalysisBroken("cannot interpret GetLocation: %s" % e)
-            check_uniform(log, {})
+            try:
+                check_uniform(log, {})
+            except CrossAxis as ca:
+                chk.instance(rule, {"function": f.qual, "cross_axis": "%s vs %s" % (ca.a, ca.b), "cfg": cfg}, ok=False)
+                chk.violation(rule, f.qual, "cross-axis|%s|%s" % (ca.a, ca.b), "GetLocation compares %s with %s (line %s): a coordinate of one axis against a bound of the "
+                              "other - the classification is wrong for rectangles whose %s and %s are ordered the other way" % (ca.a, ca.b, ca.line, ca.b, ca.a.split(".")[-1]),
+                              f.where, cfg=cfg)
+                return 1
             got = it.env.get(loc)
             got_name = None
             for nm in loc_enum[1]:
@@ -2149,6 +2168,34 @@ def bounds_update_table(db, chk, cfg, rule="BOUNDS.minmax"):
         if not all(len(amin[c]) == 1 and len(amax[c]) == 1 for c in "xy"):
             raise AnalysisBroken("GetBounds %s: the four min / max accumulators were not recognised (%s, %s)" % (f.sig[:60], amin, amax))
         nfun += 1
+        # the sentinels: a minimum starts at the largest value of its type, a maximum at the *lowest* (for a floating type
+        # numeric_limits::min() is the smallest positive value, not the lowest)
+        decls = {d.get("name"): d for d in walk(f.body) if d.get("kind") == "VarDecl"}
+        for c in "xy":
+            for acc, role in ((amin[c][0], "min"), (amax[c][0], "max")):
+                d = decls.get(acc)
+                init = [c0 for c0 in kids(d) if isinstance(c0, dict) and c0.get("kind")] if d else []
+                if not init:
+                    continue
+                t0 = canon(init[-1]).replace(" ", "")
+                floating = any(w in (dqt(d) or "") for w in ("double", "float"))
+                neg = t0.startswith("-") or t0.startswith("(-")
+                if "lowest" in t0:
+                    cls = "HIGH" if neg else "LOW"
+                elif re.search(r"\bmax\b|_MAX\b", t0):
+                    cls = "LOW" if neg else "HIGH"
+                elif re.search(r"\bmin\b|_MIN\b", t0):
+                    cls = ("TINY" if floating else "LOW") if not neg else ("TINY" if floating else "HIGH")
+                else:
+                    continue
+                n += 1
+                ok = cls == ("HIGH" if role == "min" else "LOW")
+                chk.instance(rule, {"function": f.qual, "sig": f.sig[:60], "accumulator": acc, "starts_at": t0[:40], "cfg": cfg} if not ok else None, ok=ok)
+                if not ok:
+                    chk.violation(rule, f.qual.split("<")[0], "%s|%s|sentinel" % (f.sig[:40], acc),
+                                  "%s: the %simum accumulator `%s` (%s) starts at `%s`%s: a path lying entirely on the other side of that value never moves it"
+                                  % (f.sig[:70], role, acc, dqt(d), t0[:40], ", which for a floating type is the smallest *positive* value, not the lowest" if cls == "TINY" else ""),
+                                  where(d), cfg=cfg)
         for c in "xy":
             for lo, hi, v, what in ((10, 20, 5, "below the current minimum"), (10, 20, 15, "between"), (10, 20, 25, "above the current maximum"),
                                     (SENT_MIN, SENT_MAX, 7, "first vertex (sentinel state)")):
@@ -2495,4 +2542,68 @@ def detach_table(db, chk, cfg, rule="T.detach"):
                                   "forgets the edge that still belongs to it" % (val, where(x), a[1], got, want), where(x), cfg=cfg)
     if n < 6:
         raise AnalysisBroken("T.detach: only %d detach branches found (expected the three sites in IntersectEdges, DoHorizontal, DoMaxima)" % n)
+    return n
+
+
+# ---------------------------------------------------------------------------
+# T.touching: GetSegmentIntersection when an end point lies on the other segment's line (C08, C09)
+# ---------------------------------------------------------------------------
+
+def touching_between_table(db, chk, cfg, rule="T.touching"):
+    """GetSegmentIntersection(p1, p2, p3, p4, ip) with one end point W of a segment exactly on the line of the other segment (a, b), W's
+    partner off that line: the segments touch iff W lies strictly between a and b (W at a or b is the shared-vertex case, answered
+    before).  The function is interpreted on every ordering of W against a and b, for W = p1, p2, p3, p4, for a horizontal and for a
+    vertical other segment in both directions (the rectangle's sides are handed over in both directions: top and right ascending,
+    bottom and left descending): the answer must be `true` exactly on the two 'between' orderings."""
+    import itertools
+    f = db.one("GetSegmentIntersection")
+    if len(f.params) != 5:
+        raise AnalysisBroken("GetSegmentIntersection no longer takes (p1, p2, p3, p4, ip)")
+    P = [p.get("name") for p in f.params]
+    n = 0
+    bad = []
+    for wi in range(4):
+        own = (0, 1) if wi < 2 else (2, 3)
+        other = (2, 3) if wi < 2 else (0, 1)
+        partner = own[0] if own[1] == wi else own[1]
+        for horizontal in (True, False):
+            for perm in itertools.permutations((10, 20, 30)):
+                wv, av, bv = perm
+                pts = {}
+                if horizontal:
+                    pts[wi] = (wv, 50)
+                    pts[other[0]] = (av, 50)
+                    pts[other[1]] = (bv, 50)
+                    pts[partner] = (wv + 1, 90)          # off the line, so the two segments are not collinear
+                else:
+                    pts[wi] = (50, wv)
+                    pts[other[0]] = (50, av)
+                    pts[other[1]] = (50, bv)
+                    pts[partner] = (90, wv + 1)
+                env = {}
+                for i in range(4):
+                    env[P[i] + ".x"], env[P[i] + ".y"] = pts[i]
+                def hook(name, argv, nd):
+                    if name == "operator=" and nd.get("kind") == "CXXOperatorCallExpr":
+                        return None                       # `ip = pK`: which point is stored is POLY.intersect's business
+                    if name == "GetSegmentIntersectPt":
+                        return True
+                    return NotImplemented
+                it = Interp(db, env, [], call_hook=hook)
+                try:
+                    got = it.run_function(f)
+                except Unsupported as e:
+                    raise AnalysisBroken("cannot interpret GetSegmentIntersection: %s" % e)
+                want = min(av, bv) < wv < max(av, bv)
+                n += 1
+                ok = bool(got) == want
+                chk.instance(rule, {"W": P[wi], "other_segment": "%s-%s %s" % (P[other[0]], P[other[1]], "horizontal" if horizontal else "vertical"),
+                                    "order": "W=%d a=%d b=%d" % perm, "answer": bool(got), "cfg": cfg} if (not ok or n % 12 == 1) else None, ok=ok)
+                if not ok:
+                    bad.append((P[wi], P[other[0]], P[other[1]], horizontal, perm, bool(got), want))
+    for b in bad[:1]:
+        chk.violation(rule, f.qual, "%s|%s|%s" % (b[0], "h" if b[3] else "v", "asc" if b[4][1] < b[4][2] else "desc"),
+                      "GetSegmentIntersection with %s on the line of the %s segment %s-%s (%s=%d, %s=%d, %s=%d along it; %s's partner off the line) answers %s; the "
+                      "segments %s there (%d of %d cells wrong)" % (b[0], "horizontal" if b[3] else "vertical", b[1], b[2], b[0], b[4][0], b[1], b[4][1], b[2], b[4][2], b[0],
+                                                                    b[5], "touch" if b[6] else "do not touch", len(bad), n), f.where, cfg=cfg)
     return n
